@@ -288,6 +288,17 @@ def model_build(timeout=900):
     return exe
 
 
+def model_hash():
+    """hash of the extracted model's OCaml source (what the correspondence actually runs): theorem files that
+    the extraction does not depend on do not change it"""
+    model_build()
+    h = hashlib.sha256()
+    for f in ("model.ml", "model.mli"):
+        with open(os.path.join(OCAML_BUILD, f), "rb") as fh:
+            h.update(fh.read())
+    return h.hexdigest()[:16]
+
+
 def pipe_lines(exe, lines, timeout=3600, env=None, mem_gb=None):
     """Feed request lines to a driver, return response lines."""
     data = "\n".join(lines) + "\n"
